@@ -16,10 +16,27 @@
     `raised_ZeroDivisionError`; it is `false` inside the quantified domain (numpy scalars never raise; the optimizer adds
     1e-300 to every weight, the C18 theorems assume positive weights) — the same reading as the model's doc comment;
   * `raise_value`: a `TypeError` (`None` used in arithmetic) is never reached from an encoded state.
+
+  Second half (dialect `par`, harness/translate_par.py): the PARALLEL code —
+  `OnlineVariance.parallelVariance`, the generator `sample_iter` of `Optimizer.generate_profiles` and
+  `Optimizer.compute_derived_trace` (taurex/optimizer/optimizer.py).
+  * An MPI collective is matched across the ranks by the order of the calls: the k-th collective call of a function is the
+    parameter `allgather k x` / `allreduce k x` (x = what THIS rank contributes, the value = what the collective returns on this
+    rank).  The ties quantify over the local states of ALL ranks and over the calling rank `r`, and instantiate the k-th
+    collective with the list, in rank order, of what every rank contributes to it — the calling rank's entry being the `x` the
+    regenerated code computed (`gatherAt`, `concatAt` in `Proofs/C18SrcPar.lean`).  That the calling rank's `x` is what the
+    model says it sends is proved from the regenerated code, for every `r`; so every entry of the list is what the
+    regenerated code sends on that rank.
+  * `range(rank, n, size)` / `sample_list[rank::size]` are translated to `List.range' rank ((n - rank + size - 1) / size) size`
+    (and the elements at those indices); `strided_range_eq` / `slice_eq_strided` prove that this is the model's `strided`.
+    `rank < size` is what MPI guarantees.
+  * the objects the optimizer acts on (`update_model`, `initialize_profiles`, `derived_values`) are one opaque state `W`
+    threaded through the calls (the translator's `world`).
 -/
 import TaurexModel.Gen.SrcC18
 import TaurexModel.Variance
 import Proofs.C18SrcLemmas
+import Proofs.C18SrcPar
 set_option linter.unusedSectionVars false
 set_option linter.unusedVariables false
 set_option linter.unusedSimpArgs false
@@ -162,6 +179,162 @@ example : (∀ a b : Nat, (a == b) = (decide (a ≤ b) && decide (b ≤ a))) ∧
     have h2 : (decide (a ≤ b) && decide (b ≤ a)) = false := by
       simp only [Bool.and_eq_false_iff, decide_eq_false_iff_not]; omega
     rw [h1, h2]
+
+end
+
+/-! ## the parallel code (dialect `par`) -/
+
+section
+variable {α : Type} [Add α] [Sub α] [Mul α] [Div α] [Neg α] [LT α] [LE α]
+  [DecidableLT α] [DecidableLE α] [Taurex.Transc α] [BEq α] [OfNat α 0] [OfNat α 1] [OfNat α 2]
+
+/-- the regenerated `variance` property at the carrier of float objects, on the attributes of `a`, is the model's `variance`
+    (the object `np.nan` itself below two samples); `cnt n` = the Python float `self.count` after n updates -/
+theorem src_variance_obj (a : Acc α) (cnt : ℕ → α) (hc1 : ∀ n, cnt n < 2 ↔ n < 2) :
+    Gen.SrcC18.OnlineVariance_variance (α := Obj α) (M2 := (pyOpt a a.m2).map Obj.ofNum) (count := Obj.ofNum (cnt a.count))
+        (np_nan := npNan) (wcount := Obj.ofNum a.wcount) = variance a := by
+  unfold Gen.SrcC18.OnlineVariance_variance variance
+  have h2 : decide (Obj.ofNum (cnt a.count) < (2 : Obj α)) = decide (a.count < 2) := by
+    rw [decide_lt]
+    show decide (cnt a.count < 2) = _
+    exact decide_eq_decide.2 (hc1 a.count)
+  rw [h2]
+  by_cases h : a.count < 2
+  · simp [h]
+  · have h0 : a.count ≠ 0 := by omega
+    simp [h, pyOpt, h0]
+    rfl
+
+/-- `OnlineVariance.parallelVariance()` on rank `r` of the ranks whose accumulators are `ranks` (`ranks[r] = a`: the attributes
+    of the calling object are those of `a`), with the four `mpi.allgather`s returning the rank-ordered lists of what every rank
+    contributes (`gatherAt`: its variance object, its mean object — `np.nan` for a `None` mean —, `wcount`, `count`; each
+    through one exchange `exch`), is the model's `parallelVariance nanByValue exch ranks` — including the test
+    `sum(all_counts) < 2 → np.nan` and the NaN mean object.  Hypotheses: `hbeq`, `hrefl` as in `src_combine`; `cnt` = the
+    Python float of a count with `hc1`, `hcs` (comparing such floats / their left-to-right sum with 2 is comparing the
+    naturals: exact in IEEE doubles below 2^53, and in ℝ); `hex`: an exchange returns a number as that number (pickling keeps
+    the value; only the identity of `np.nan` is lost). -/
+theorem src_parallelVariance (hbeq : ∀ a b : α, (a == b) = (decide (a ≤ b) && decide (b ≤ a))) (hrefl : ∀ x : α, x ≤ x)
+    (cnt : ℕ → α) (hc1 : ∀ n, cnt n < 2 ↔ n < 2) (hcs : ∀ l : List ℕ, sumList (l.map cnt) < 2 ↔ l.sum < 2)
+    (exch : Obj α → Obj α) (hex : ∀ x : α, exch (Obj.ofNum x) = Obj.ofNum x)
+    (ranks : List (Acc α)) (r : ℕ) (a : Acc α) (hr : ranks[r]? = some a) :
+    (Gen.SrcC18.parallelVariance (α := Obj α) (M2 := (pyOpt a a.m2).map Obj.ofNum) (count := Obj.ofNum (cnt a.count))
+        (mean := (pyOpt a a.mean).map Obj.ofNum) (np_nan := npNan) (wcount := Obj.ofNum a.wcount)
+        (allgather := gatherAt exch cnt ranks r) (is_np_nan := fun o => o.isNpNan)).map Obj.val
+      = parallelVariance nanByValue exch ranks := by
+  unfold Gen.SrcC18.parallelVariance parallelVariance
+  dsimp only
+  rw [src_variance_obj a cnt hc1]
+  generalize hg1 : gatherAt exch cnt ranks r 1 _ = G1
+  have hG1 : G1 = ranks.map (fun b => exch (sentBy cnt 1 b)) := by
+    rw [← hg1]
+    refine gatherAt_eq exch cnt ranks r 1 a _ hr ?_
+    unfold pyOpt sentBy meanObj
+    by_cases h : a.count = 0 <;> simp [h]
+  rw [hG1, gatherAt_eq exch cnt ranks r 0 a (variance a) hr rfl,
+    gatherAt_eq exch cnt ranks r 2 a (Obj.ofNum a.wcount) hr rfl,
+    gatherAt_eq exch cnt ranks r 3 a (Obj.ofNum (cnt a.count)) hr rfl]
+  have hcounts : ranks.map (fun b => exch (sentBy cnt 2 b)) = (ranks.map (·.wcount)).map Obj.ofNum := by
+    rw [List.map_map]; apply List.map_congr_left; intro b _; exact hex _
+  have hall : ranks.map (fun b => exch (sentBy cnt 3 b)) = ((ranks.map (·.count)).map cnt).map Obj.ofNum := by
+    rw [List.map_map, List.map_map]; apply List.map_congr_left; intro b _; exact hex _
+  rw [hcounts, hall]
+  simp only [sentBy]
+  rw [show (0 : Obj α) = Obj.ofNum 0 from rfl, sum_ofNum]
+  have h2 : decide (Obj.ofNum (List.foldl (· + ·) 0 ((ranks.map (·.count)).map cnt)) < (2 : Obj α))
+      = decide ((ranks.map (·.count)).sum < 2) := by
+    rw [decide_lt]
+    show decide (sumList ((ranks.map (·.count)).map cnt) < 2) = _
+    exact decide_eq_decide.2 (hcs _)
+  rw [h2]
+  by_cases h : (ranks.map (·.count)).sum < 2
+  · simp [h]; rfl
+  · simp only [h, decide_false, Bool.false_eq_true, if_false]
+    rw [← src_combine hbeq hrefl]
+    generalize Gen.SrcC18.combine_variance (α := Obj α) _ _ _ _ = X
+    cases X <;> rfl
+
+/-- the hypotheses on `cnt` hold, e.g., of the natural numbers themselves -/
+example : (∀ n : ℕ, id n < 2 ↔ n < 2) ∧ (∀ l : List ℕ, sumList (l.map id) < 2 ↔ l.sum < 2) := by
+  refine ⟨fun _ => Iff.rfl, fun l => ?_⟩
+  have h : ∀ (l : List ℕ) (a : ℕ), l.foldl (· + ·) a = a + l.sum := by
+    intro l
+    induction l with
+    | nil => intro a; simp
+    | cons x l ih => intro a; rw [List.foldl_cons, ih, List.sum_cons]; omega
+  rw [List.map_id, sumList, h, Nat.zero_add]
+
+end
+
+/-- the generator `sample_iter` that `generate_profiles` hands to `compute_error`, on rank `rank` of `size`: it visits the
+    samples `sample_list[rank::size]` — the model's `strided rank size sample_list` — in order; for each, `update_model`
+    is applied to the state of the forward model and the weight is yielded (`walk`: the list of (state at the yield, weight)).
+    Generic in the sample type, the weights' carrier and the state. -/
+theorem src_sample_iter {α P W : Type} (sample_list : List (P × α)) (rank size : ℕ) (hr : rank < size)
+    (um : W → P → W) (w0 : W) :
+    Gen.SrcC18.sample_iter sample_list rank size um w0 = walk um w0 (strided rank size sample_list) := by
+  unfold Gen.SrcC18.sample_iter
+  dsimp only
+  rw [show (List.length sample_list - rank + size - 1) / size = rangeCount rank sample_list.length size from rfl,
+    slice_eq_strided hr, walk_fold]
+  rfl
+
+section
+variable {α : Type} [OfNat α 0]
+
+/-- what rank `j` contributes to the k-th `mpi.allreduce(…, op='SUM')` of `compute_derived_trace` for one derived parameter
+    whose value on sample i is `tr i` and whose weight is `wt i` (k = 1: its trace, k = 2: its weights): the entries of its
+    samples `range(j, n, size)` in order -/
+def sentTrace (size n : ℕ) (tr wt : ℕ → α) (k j : ℕ) : List α :=
+  strided j size ((List.range n).map (if k = 1 then tr else wt))
+
+/-- `Optimizer.compute_derived_trace` for one derived parameter, on rank `r` of `size`, `n` samples: the loop over
+    `range(rank, n, size)` evaluates the rank's samples in order; the three `mpi.allreduce(…, op='SUM')` return the
+    concatenation in rank order (`concatAt`) of the ranks' index lists `range(j, n, size)` (= `strided j size (range n)`),
+    traces and weights; `restore = all_index.argsort()` (`argsort`: the model's) and `[restore]`.  The stored 'trace' is the
+    model's `derivedTraceGather size` of the trace in sample order.  `hdv`: the derived value read after
+    `update_model(p)`, `initialize_profiles()` depends on `p` only (what C07 states of the update).  The quantile summary
+    (`quantile_corner`, `np.average`, the literals) does not enter the stored trace: arbitrary. -/
+theorem src_compute_derived_trace {P W : Type} (n size r : ℕ) (hr : r < size) (samples : ℕ → P) (weights : ℕ → α)
+    (um : W → P → W) (ip : W → W) (dv : W → α) (value : P → α) (hdv : ∀ w p, dv (ip (um w p)) = value p) (w0 : W)
+    (average : List α → List α → α) (quantile_corner : List α → List α → List α → List α) (q16 q50 q84 : α) :
+    Gen.SrcC18.compute_derived_trace n
+        (allreduce := fun k => concatAt size r (sentTrace size n (fun i => value (samples i)) weights k))
+        (allreduce_nat := fun _ => concatAt size r (fun j => strided j size (List.range n)))
+        (argsort_nat := argsort) (average := average) (c0p16 := q16) (c0p5 := q50) (c0p84 := q84) (derived_values := dv)
+        (initialize_profiles := ip) (mpi_rank := r) (mpi_size := size) (quantile_corner := quantile_corner)
+        (samples := samples) (update_model := um) (w__ := w0) (weights := weights)
+      = derivedTraceGather size ((List.range n).map (fun i => value (samples i))) := by
+  have hs : 0 < size := by omega
+  unfold Gen.SrcC18.compute_derived_trace
+  dsimp only
+  rw [show (n - r + size - 1) / size = rangeCount r n size from rfl]
+  rw [trace_fold um ip dv value hdv samples weights _ w0 [] []]
+  rw [List.nil_append, map_range'_strided hr,
+    concatAt_eq size r (fun j => strided j size (List.range n)) _ (strided_range_eq hr n).symm,
+    concatAt_eq size r (sentTrace size n (fun i => value (samples i)) weights 1) _ (by simp [sentTrace])]
+  set trace := (List.range n).map (fun i => value (samples i)) with htr
+  have hgi : ((List.range size).map (fun j => strided j size (List.range n))).flatten
+      = gatherLists (partition size (List.range trace.length)) := by simp [gatherLists, partition, htr]
+  have hgt : ((List.range size).map (sentTrace size n (fun i => value (samples i)) weights 1)).flatten
+      = gatherLists (partition size trace) := by
+    simp only [gatherLists, partition, htr]; congr 1
+  rw [hgi, hgt]
+  unfold derivedTraceGather restoreOrder
+  dsimp only
+  apply map_getD_eq_takeIdx
+  intro i hi
+  have hp := argsort_perm (gatherLists (partition size (List.range trace.length)))
+  have hlen1 : (gatherLists (partition size (List.range trace.length))).length = trace.length := by
+    have := (partition_flatten_perm hs (List.range trace.length)).length_eq
+    simpa [gatherLists] using this
+  have hlen2 : (gatherLists (partition size trace)).length = trace.length :=
+    (partition_flatten_perm hs trace).length_eq
+  rw [hlen1] at hp
+  rw [hlen2]
+  exact List.mem_range.1 (hp.subset hi)
+
+/-- the keys of the stored record: the translated component is the one stored under 'trace' -/
+theorem src_compute_derived_trace_keys : Gen.SrcC18.compute_derived_trace_keys = ["trace"] := rfl
 
 end
 
